@@ -771,7 +771,7 @@ void child_run(const Job& job, const uint64_t* tape, const Dec* dec, Shared* out
     { static const uint32_t dn[] = {4, 4, 16, 64}; g_drain_n = dn[g_rng_sched.below(4)]; }
     g_cfg.strategy = g_strategy;
     if (g_replay) g_strategy = -1;
-    alarm(job.tier ? 120 : 60);
+    alarm((job.flags & JF_SHORT_ALARM) ? 12 : job.tier ? 120 : 60);
     signal(SIGABRT, on_fatal_signal);
     g_active = 1;
     Fiber* f0 = make_fiber(2u << 20, true, "main");
